@@ -11,7 +11,78 @@ enum Q2 {
     Rel(u16),
 }
 
+/// Many inbound QoS 2 exchanges open at once: N messages delivered, all re-delivered (DUP=1), released in PRNG order,
+/// the identifiers reused for new messages. Used by C09 (exactly-once on the stream) and C08 (acknowledgements).
+pub fn wide(rep: &mut Rep, base_idx: u64) {
+    let ns: Vec<usize> = if rep.quick() { vec![9, 17, 33, 65, 129, 300] } else { vec![7, 8, 9, 15, 16, 17, 31, 32, 33, 63, 64, 65, 127, 128, 129, 255, 256, 257, 1000, 4000] };
+    rep.note(&format!("wide: {:?} inbound QoS 2 exchanges open at once (identifiers spread over the 16-bit range), each message re-delivered with DUP=1 once or twice, PUBRELs in PRNG order (some twice), then the identifiers reused for new messages", ns));
+    let mut idx = base_idx;
+    for (ni, &n) in ns.iter().enumerate() {
+        for variant in 0..2u64 {
+            let id = format!("wide:{n}:{variant}");
+            idx += 1;
+            if !rep.take(idx, &id) {
+                continue;
+            }
+            let mut rng = crate::sim::Rng::new(rep.seed.wrapping_mul(313).wrapping_add(ni as u64 * 2 + variant));
+            let mut w = World::boot(WorldCfg { seed: rep.seed.wrapping_add(ni as u64), receive_max: if variant == 1 { Some(3) } else { None }, ..Default::default() });
+            w.sim.log_enabled = n <= 40;
+            let a = w.start(0, Kind::Sub);
+            w.settle_check();
+            w.deliver_ack(a, 1, 0, 0);
+            w.settle_check();
+            w.take_stream(a);
+            let sid = w.sub_id_of(a).unwrap_or(1);
+            let stride = if variant == 0 { 1usize } else { 65535 / n.max(1) };
+            let ids: Vec<u16> = (0..n).map(|j| (1 + j * stride.max(1)).min(65535) as u16).collect();
+            for &p in &ids {
+                w.in_publish(2, p, false, &[sid], false);
+                w.settle();
+            }
+            w.settle_check();
+            for (j, &p) in ids.iter().enumerate() {
+                w.in_publish(2, p, true, &[sid], false);
+                if j % 5 == 0 {
+                    w.in_publish(2, p, true, &[sid], false);
+                }
+                w.settle();
+            }
+            w.settle_check();
+            let mut order = ids.clone();
+            for j in (1..order.len()).rev() {
+                order.swap(j, rng.below(j + 1));
+            }
+            for (j, &p) in order.iter().enumerate() {
+                w.in_pubrel(p);
+                if j % 7 == 0 {
+                    w.in_pubrel(p);
+                }
+                w.settle();
+                if j % 64 == 0 {
+                    w.settle_check();
+                }
+            }
+            w.settle_check();
+            for &p in ids.iter().take(40) {
+                w.in_publish(2, p, false, &[sid], false);
+                w.settle();
+            }
+            w.settle_check();
+            finish(&mut w);
+            rep.add("evaluations", 1);
+            rep.add("wide_cases", 1);
+            rep.max("max_inbound_qos2_exchanges_open_at_once", n as i64);
+            rep.distinct(&("wide", n, variant));
+            if harvest(rep, &mut w, &id) == 0 {
+                rep.sample(|| format!("{id}: {} stream items, {} re-deliveries suppressed, {} acknowledgements matched", w.m[a].expected_items.len(), w.counters.redeliveries, w.counters.inbound_acks_matched));
+            }
+            add_counters(rep, &w);
+        }
+    }
+}
+
 pub fn run(rep: &mut Rep) {
+    wide(rep, 700_000_000);
     let mut alpha = Vec::new();
     for id in [1u16, 2, 3] {
         alpha.push(Q2::Pub(id, false));
